@@ -87,6 +87,19 @@ class Ctx(object):
     def note(self, s):
         self.notes.append(s)
 
+    def total(self, rets, outs, rule, what):
+        """The analysed callable must have a returning path.  When every evaluated path raises, that is a
+        decided fact about the code (the function fails on every input), reported as a violation of `rule`;
+        with no evaluated path at all it is a limit of the analysis."""
+        if rets:
+            return
+        rs = [o for o in outs if o.kind == "raise"]
+        if outs and len(rs) == len(outs):
+            where = sorted({"%s at %s:%s" % (o.exc, (o.site or ("?", 0))[0], (o.site or ("?", 0))[1]) for o in rs})
+            self.ob(rule, what.split(" has no ")[0], False, "%s: every path raises (%s)" % (what, "; ".join(where[:4])),
+                    next((o.site for o in rs if o.site), None))
+        raise AnalysisError(what)
+
     def require(self, cond, what):
         """An anchor or precondition of the analysis itself (not of the property)."""
         if not cond:
